@@ -411,7 +411,7 @@ def run(args, rep, info, broken, rng):
                       "how_to_read": "case = model spec (harness/io_models.py: build); cfg = Configuration().bounds; "
                                      "step 1 = model_to_dict, 10+i = i-th model_from_dict, 100+t/200+t = first/second "
                                      "trip through format t of " + ",".join(FORMATS),
-                      "theorem": "C11_dict_roundtrip / C11_load_total / C11_dict_idempotent (coq/theories/Properties/C11.v)",
+                      "theorem": "C11_dict_roundtrip_general / _partial / _public / _resave, C11_resave_same_document, C11_load_total_iff / _partial / _at_once / _current, C11_dict_idempotent / _partial, C11_rt_idempotent_iff, C11_public_comps_fixpoint (coq/theories/Properties/C11.v)",
                       "observation_before": {k: v for k, v in o2[0]["obs0"].items() if k != "lp"}}
             rep.violation(sig, replay)
 
